@@ -536,3 +536,52 @@ package decoder
 //@   requires region(p, 16) && dstApart(p, 16, ctx.Buf)
 //@   ensures err == nil ==> cursor < c && c < len(ctx.Buf)
 //@   assigns M, class T:string.ptr, class T:int.len
+
+// ---------------------------------------------------------------- struct key matching by bitmap (C15, C06)
+// Well-formedness of the tables tryOptimize builds (assumed of its output; bounded check in the thorough tier):
+// n field names, one bitmap row per key position plus a final all-zero row, bit i set only for i < n.
+//@ spec wfBitmap8(d) := len(d.sortedFieldSets) <= 8 && len(d.keyBitmapUint8) >= 1 && (forall i :: 0 <= i && i < len(d.sortedFieldSets) ==> d.sortedFieldSets[i] != nil) && (forall j, c :: 0 <= j && j < len(d.keyBitmapUint8) && 0 <= c && c < 256 ==> d.keyBitmapUint8[j][c] < pow2(len(d.sortedFieldSets))) && (forall c :: 0 <= c && c < 256 ==> d.keyBitmapUint8[len(d.keyBitmapUint8)-1][c] == 0)
+//@ tablelemma[C15,C06] largeToSmallTable(j, v) := v == ((j >= 65 && j <= 90) ? j + 32 : j)
+
+// Position contract of the escape helpers: on success c is the index of the LAST byte of the escape sequence
+// (the callers advance once more), it stays inside the buffer, and an unknown escape character is an error.
+//@ spec simpleEsc(e) := e == '"' || e == 92 || e == '/' || e == 'b' || e == 'f' || e == 'n' || e == 'r' || e == 't'
+//@ func decodeKeyCharByEscapedChar(buf, cursor) (chars, c, err)
+//@   props C15 C06
+//@   requires bufOK(buf, cursor)
+//@   ensures err == nil ==> cursor <= c && c < len(buf) - 1
+//@   ensures err == nil && simpleEsc(buf[cursor]) ==> c == cursor && len(chars) == 1
+//@   ensures !simpleEsc(buf[cursor]) && buf[cursor] != 'u' ==> err != nil
+//@   assigns M
+
+//@ func decodeKeyCharByUnicodeRune(buf, cursor) (chars, c, err)
+//@   props C15 C06
+//@   requires bufOK(buf, cursor)
+//@   ensures err == nil ==> cursor <= c && c < len(buf) - 1 && len(chars) >= 1 && len(chars) <= 4
+//@   assigns M
+
+//@ func unicodeToRune(code) (r)
+//@   props C15 C06
+//@   requires len(code) <= 4
+//@   assigns nothing
+//@   loop 1: invariant 0 <= i && 0 <= r && r < pow2(4 * i) && i <= len(code)
+//@   loop 1: decreases len(code) - i
+
+//@ func decodeKeyNotFound(b, cursor) (c, field, err)
+//@   props C15 C06
+//@   trusted key skipper over a raw pointer (no slice to state the sentinel on); checked by reading
+//@   ensures err == nil ==> field == nil && cursor < c
+//@   assigns nothing
+
+//@ func decodeKeyByBitmapUint8(d, buf, cursor) (c, field, err)
+//@   props C15 C06
+//@   requires d != nil && bufOK(buf, cursor) && wfBitmap8(d)
+//@   ghost klen := keyIdx
+//@   ensures err == nil ==> cursor < c && c < len(buf)
+// a field is selected only if the number of DECODED key bytes equals the length of its name
+//@   ensures err == nil && field != nil ==> klen == field.keyLen
+//@   assigns M
+//@   loop 1: invariant old(cursor) <= cursor && cursor < len(buf) && buf[len(buf)-1] == 0
+//@   loop 2: invariant start <= cursor && cursor < len(buf) && buf[len(buf)-1] == 0 && 0 <= keyIdx && keyIdx < len(bitmap) && bitmap == d.keyBitmapUint8 && wfBitmap8(d)
+//@   loop 2: invariant keyIdx >= 1 ==> curBit < pow2(len(d.sortedFieldSets))
+//@   loop 3: unroll 4
